@@ -1683,6 +1683,12 @@ func (interp *Interpreter) cfg(root *node, sc *scope, importPath, pkgName string
 					n.kind = basicLit
 				case n.ident == nilIdent:
 					n.kind = basicLit
+				case sym.kind == binSym && sym.rval.CanAddr():
+					// A variable of a binary package imported in the current scope: its value
+					// is read at run time, and not treated as a constant.
+					n.typ = sym.typ
+					n.val = sym.rval
+					n.findex = notInFrame
 				case sym.kind == binSym:
 					n.typ = sym.typ
 					n.rval = sym.rval
@@ -1907,7 +1913,14 @@ func (interp *Interpreter) cfg(root *node, sc *scope, importPath, pkgName string
 						n.typ = valueTOf(s.Type().Elem())
 					} else {
 						n.typ = valueTOf(fixPossibleConstType(s.Type()), withUntyped(isValueUntyped(s)))
-						n.rval = s
+						if s.CanAddr() {
+							// A variable of the binary package: its value is read at run time,
+							// each time the expression is evaluated, and not treated as a constant.
+							n.val = s
+							n.findex = notInFrame
+						} else {
+							n.rval = s
+						}
 						if pkg == "unsafe" && (name == "AlignOf" || name == "Offsetof" || name == "Sizeof") {
 							n.sym = &symbol{kind: bltnSym, node: n, rval: s}
 							n.ident = pkg + "." + name
